@@ -29,7 +29,7 @@ def contributions(leaf: Any, container: Any) -> List[Dict[str, Any]]:
         else:
             continue
         lid = e.__dict__.get("in_loop")
-        rec = recs.get(lid) if lid is not None else None
+        rec = e.__dict__.get("in_loop_rec") or (recs.get(lid) if lid is not None else None)
         out.append({"how": how, "value": val, "key": key, "loop": rec, "element": element_of(rec) if rec is not None else None,
                     "iter": rec.iter_value if rec is not None else None, "effect": e})
     # items the container already held when it became loop-carried
